@@ -155,18 +155,28 @@ class Ref:
         self.writes = []     # (rev, key, val or None)
         self.committed = INIT
         self.floor = 0
+        self.started = {}    # scheduled suites: cid -> request tokens
 
     def feed(self, line, out):
         t, o = line.split(), out.split()
         if not t or not o:
             return
+        if t[0] == "start" and len(t) > 3:
+            self.started[t[1]] = t[2:]
+        if t[0] in ("start", "step") and len(o) >= 5 and o[0] == "done" and o[3] == "ok":
+            rq = self.started.get(o[1])
+            if rq:
+                if rq[0] in ("create", "update"):
+                    self.writes.append((int(o[4]), unhx(rq[1]), unhx(rq[2])))
+                elif rq[0] == "delete":
+                    self.writes.append((int(o[4]), unhx(rq[1]), None))
         if t[0] == "create" and o[:2] == ["create", "ok"]:
             self.writes.append((int(o[2]), unhx(t[1]), unhx(t[2])))
         elif t[0] == "update" and o[:2] == ["update", "ok"]:
             self.writes.append((int(o[2]), unhx(t[1]), unhx(t[2])))
         elif t[0] == "delete" and o[:2] == ["delete", "ok"]:
             self.writes.append((int(o[2]), unhx(t[1]), None))
-        elif t[0] == "fill" and len(o) == 2 and o[1].isdigit():
+        elif t[0] == "bulk" and len(o) == 2 and o[1].isdigit():
             n, last = int(t[1]), int(o[1])
             for i in range(n):
                 self.writes.append((last - n + 1 + i, unhx(t[2]) + (b"%05d" % i), unhx(t[3])))
@@ -200,7 +210,8 @@ def check_reads(case, allow_tombstone_value=False):
             continue
         ref.feed(line, out)
         if t[0] in ("get", "list", "count") and "err" not in o[:2]:
-            R = int(t[2]) if t[0] == "get" else (int(t[3]) if t[0] == "list" else 0)
+            rtok = t[2] if t[0] == "get" else (t[3] if t[0] == "list" else "0")
+            R = (ref.committed + int(rtok[2:] or 0)) if rtok.startswith("c") else int(rtok)
             if R == 0:
                 R = ref.committed
             if R > ref.committed or R < ref.floor:
@@ -250,5 +261,5 @@ def check_headers(case):
         for kv in kvs:
             if kv and kv[2] > hdr:
                 return ("line %d: %s -> %s: header %d < data revision %d" % (i + 1, line, out[:200], hdr, kv[2]),
-                        "header<data")
+                        "header-lt-data")
     return None
